@@ -136,6 +136,8 @@ def kinds_in(e, acc=None):
 
 def sys_features(eqs):
     f = set()
+    if len(eqs) > 2:
+        f.add("overdetermined")
     for q in eqs:
         if q["r1"] != 0:
             f.add("unknown-on-both-sides")
